@@ -329,4 +329,15 @@ def run_shard(ctx):
 
 
 def replay(ctx, payload):
-    ctx.agg.inconclusive.append("C15 witnesses are reproduced by re-running the check (values are listed by repr)")
+    import fickling  # noqa: F401
+    import fickling.fickle as f
+    import fickling.cli as cli
+    c = payload["case"]
+    if "helper" in c and "value_repr" in c and len(c["value_repr"]) < 400:
+        check_value(ctx, f, c["helper"], eval(c["value_repr"], {"__builtins__": {}}, {"inf": float("inf"), "nan": float("nan")}))
+    elif "opcode" in c:
+        check_opcode(ctx, f, c["opcode"], eval(c["arg_repr"], {"__builtins__": {}}, {"inf": float("inf")}))
+    elif "cli" in c:
+        check_cli(ctx, f, cli, eval(c["text_repr"], {"__builtins__": {}}, {}), c["cli"])
+    else:
+        ctx.agg.inconclusive.append("witness value too long to replay from its repr; re-run the check")
